@@ -150,7 +150,7 @@ def gen_hist(rng, lane, stripped=False):
     if rng.chance(1, 12):
         plan.insert(rng.below(len(plan) + 1), ('lookbad', None))
     # garbage collections (+ allocation churn) while mocks are active; other kinds of mockers in the same builder
-    for _ in range((1 + rng.below(3)) if lane == 'gc' else (1 if rng.chance(1, 150) else 0)):
+    for _ in range((1 + rng.below(3)) if lane == 'gc' else 0):   # only in lane gc: it runs in its own small process, a forced GC of the big op-stream heap is slow
         plan.insert(1 + rng.below(len(plan)), ('gc', None))
     if rng.chance(1, 6):
         for _ in range(1 + rng.below(2)):
@@ -510,14 +510,17 @@ def run(tier):
     out = C.Outcome('C08', tier)
     rng = C.Rng(C.seed()).fork('C08')
     proof = C.prove('C08', leanchecker=(tier == 'thorough'))
-    n_disc, n_long, n_wild, n_strip, n_gc = (1500, 200, 500, 60, 250) if tier == 'quick' else (120000, 12000, 40000, 1000, 3000)
+    n_disc, n_long, n_wild, n_strip, n_gc = (1500, 200, 500, 60, 250) if tier == 'quick' else (200000, 20000, 60000, 1500, 4000)
     hists = corpus_hists()
     hists += [gen_hist(rng, 'disc') for _ in range(n_disc)]
     hists += [gen_hist(rng, 'long') for _ in range(n_long)]
     hists += [gen_hist(rng, 'wild') for _ in range(n_wild)]
-    hists += [gen_hist(rng, 'gc') for _ in range(n_gc)]
     lines = [h.line() for h in hists] + asg_lines()
     impl, model, legacy, derr = execute(lines, 'c08')
+    # lane gc in a process of its own (small heap: every `gc` op forces three full collections)
+    ghists = [gen_hist(rng, 'gc') for _ in range(n_gc)]
+    glines = [h.line() for h in ghists]
+    gimpl, gmodel, glegacy, _ = execute(glines, 'c08-gc')
     shists = [gen_hist(rng, 'disc', stripped=True) for _ in range(n_strip)]
     for h in shists[:10]:
         h.ops.insert(0, f'lookbad stripped {h.vars[0]}')
@@ -526,15 +529,15 @@ def run(tier):
     simpl, smodel, _, _ = execute(slines, 'c08-stripped', stripped=True)
 
     # floors: a lane that silently ran nothing is a machinery error, not a pass
-    answered = sum(1 for x in impl if x is not None) + sum(1 for x in simpl if x is not None)
-    if answered < 0.98 * (len(lines) + len(slines)) or STATS['probe_crashes'] > 5 and not os.environ.get('VERIF_ALLOW_CRASHES'):
+    answered = sum(1 for x in impl if x is not None) + sum(1 for x in simpl if x is not None) + sum(1 for x in gimpl if x is not None)
+    if answered < 0.98 * (len(lines) + len(slines) + len(glines)) or STATS['probe_crashes'] > 5 and not os.environ.get('VERIF_ALLOW_CRASHES'):
         if STATS['probe_crashes'] <= 5:
-            raise C.Infra(f'the probe answered only {answered} of {len(lines) + len(slines)} lines')
+            raise C.Infra(f'the probe answered only {answered} of {len(lines) + len(slines) + len(glines)} lines')
     if model is not None and len(model) != len(lines):
         raise C.Infra(f'the model driver answered {len(model)} of {len(lines)} lines')
     # 1. the property on the implementation
     bad = []
-    for hs, im, which in ((hists, impl, 'symbols'), (shists, simpl, 'stripped')):
+    for hs, im, which in ((hists, impl, 'symbols'), (ghists, gimpl, 'symbols'), (shists, simpl, 'stripped')):
         for i, h in enumerate(hs):
             if h.lane == 'wild':
                 continue
@@ -618,7 +621,7 @@ def run(tier):
         proof['failed'].append(('goomdrv', 'driver does not build: ' + derr[-500:]))
     else:
         det = [i for i, l in enumerate(mlines) if ' reset ' not in l]     # Reset over two mockers of one variable is order-dependent
-        for ls, im, mo in ((lines, impl, model), (slines, simpl, smodel), ([mlines[i] for i in det], [mimpl[i] for i in det], [mmodel[i] for i in det]),
+        for ls, im, mo in ((lines, impl, model), (glines, gimpl, gmodel or []), (slines, simpl, smodel), ([mlines[i] for i in det], [mimpl[i] for i in det], [mmodel[i] for i in det]),
                            ([m.line() for m in nh_], nimpl, nmodel)):
             for i, l in enumerate(ls):
                 if not model_prefix_equal(im[i], mo[i] if i < len(mo) else None):
@@ -635,8 +638,8 @@ def run(tier):
                           {'kind': 'proof', 'broken': proof['failed'], 'searched': len(lines) + len(slines), 'output': proof.get('output', '')[-3000:]},
                           no_failing_input=True)
     # evidence
-    allh = hists + shists
-    allimpl = list(impl[:len(hists)]) + list(simpl)
+    allh = hists + ghists + shists
+    allimpl = list(impl[:len(hists)]) + list(gimpl) + list(simpl)
     dist = {'lanes': {}, 'op_kinds': {}, 'outcomes': {}, 'var_types': {}, 'modes': {'p': 0, 'u': 0}, 'history_length': {}}
     nontrivial = set()
     for h, ob in zip(allh, allimpl):
@@ -667,8 +670,8 @@ def run(tier):
                          'reflect facts encoded in the model: ValueOf(nil) invalid, Set panics on invalid/non-assignable source, assignability rule (compared with reflect on every type pair each run)',
                          'probe canonicalisation harness/c08 (value identity by pool element, panic message classes)'],
         'theorems': proof['axioms'], 'proof_failures': proof['failed'],
-        'evaluations': len(lines) + len(slines), 'distinct_nontrivial': len(nontrivial),
-        'traces_validated_against_impl': len(lines) + len(slines) - len(diffs),
+        'evaluations': len(lines) + len(slines) + len(glines), 'distinct_nontrivial': len(nontrivial),
+        'traces_validated_against_impl': len(lines) + len(slines) + len(glines) - len(diffs),
         'rule': 'one evaluation = one whole history (1-3 variables of 25 types x 2 variables, lookups by pointer or by symbol name, Set/Apply x0..7 incl. malformed values and callbacks, '
                 'Cancel/Reset x1..n, direct writes, re-lookups, Builder.Pkg overrides pending at lookups; lanes: disc = one mocker per variable at a time (oracle + correspondence), long = same, longer, wild = stale handles too '
                 '(correspondence only), stripped binary) or one c08.asg type pair; non-trivial = distinct history in which at least one Set/Apply succeeded on the real code',
